@@ -177,7 +177,7 @@ func (g *genCtx) newPattern(forceGroups bool) *Pattern {
 	}
 	var lits []string
 	if g.o.Fmt && r.Intn(4) == 0 {
-		re.WriteString(`(?:x\/y)?`)
+		re.WriteString(ev.PickOne(r, []string{`(?:x\/y)?`, `(?:x\/y)?`, `(?:x\\\/y)?`, `(?:\\\/)?`}))
 	}
 	for k := 0; k < n && i < len(fields); k++ {
 		f := fields[i]
@@ -578,7 +578,7 @@ var strLits = []string{"", "x", "foo", "Foo", "BAR", "12", "-5", "1.5", "ff", "a
 
 func (g *genCtx) strLeaf() Expr {
 	if g.o.Fmt && g.r.Intn(4) == 0 {
-		return &StrLit{ev.PickOne(g.r, []string{`a\"b`, `c\\d`, `\"`, `say \"hi\" \\o/`, `tab\there`})}
+		return &StrLit{ev.PickOne(g.r, []string{`a\"b`, `c\\d`, `\"`, `say \"hi\" \\o/`, `tab\there`, `dir\\\" next`, `\\\"`, `ends\\`, `\\\\\"q`})}
 	}
 	cs := g.capsOf(TString)
 	switch k := g.r.Intn(10); {
